@@ -230,9 +230,10 @@ def run_unit(unit, repo, vfdir, scratch, rlimit=None, keep=False, extra_args=())
     cur = res
     res2 = None
     for _ in range(5):
+        before = set(stub)
         for ln in cur.hard_lines:
             hit = [r for r in cur.all_ranges if r[0] <= ln <= r[1]]
-            if not hit or hit[0][3] or hit[0][2] in stub:   # outside any extracted fn / inside a block lift / already stubbed
+            if not hit or hit[0][3] or hit[0][2] in before:   # outside any extracted fn / inside a block lift / already stubbed in an earlier pass
                 return res
             stub.add(hit[0][2])
         res2 = _run_unit_once(unit, repo, vfdir, scratch, rlimit, keep, extra_args, stub=tuple(stub))
